@@ -218,11 +218,15 @@ StartRead(s, h, style, cap) == /\ sk[s].conn # 0 /\ ~sk[s].closed /\ sk[s].rd = 
 Deliverable(s) == st[StreamIn(s)].inorder - st[StreamIn(s)].deliv
 EofDeliverable(s) == LET k == StreamIn(s) IN
                      st[k].eofAt >= 0 /\ st[k].eofAt < st[k].rnext /\ st[k].deliv = st[k].inorder
-\* bytes are handed to the reader: exactly the next n bytes of the peer's stream of this connection
+\* bytes are handed to the reader: exactly the next n bytes of the peer's stream of this connection.
+\* Lenient (overridden to TRUE by Trace_Tcp_progress.cfg) is the progress projection used by C06: which bytes are
+\* delivered is not examined (that is C05's), only how many, so that a run whose content is already wrong is
+\* still examined for stalls at quiescence.
+Lenient == FALSE
 ReadData(s, h, n, sid, off) ==
     /\ sk[s].rd # None /\ sk[s].rd.h = h /\ ~sk[s].eofRead
-    /\ n >= 1 /\ n <= sk[s].rd.cap /\ n <= Deliverable(s)
-    /\ sid = Sid(StreamIn(s)) /\ off = st[StreamIn(s)].deliv
+    /\ n >= 1 /\ n <= sk[s].rd.cap
+    /\ Lenient \/ (n <= Deliverable(s) /\ sid = Sid(StreamIn(s)) /\ off = st[StreamIn(s)].deliv)
     /\ st' = [st EXCEPT ![StreamIn(s)].deliv = @ + n]
     /\ sk' = [sk EXCEPT ![s].rd = None]
     /\ UNCHANGED <<now, nat, lst, cn>>
